@@ -1,8 +1,205 @@
-import AlgoVerif.Common
-/-! Line-protocol component for C13 — not built yet. -/
-namespace AlgoVerif.C13.Driver
+import AlgoVerif.Model.C13
+/-!
+Line-protocol component for C13.  A case is a little program over named registers holding NFAs/DFAs:
 
-def runCase (_hdr : List String) (ops : List String) : List String :=
-  ops.map fun _ => "bad-case"
+    nfa X <start> <f1,f2|->        add X <s> <a> <t1,t2|->        dfa X <start> <finals>      dadd X <s> <a> <t>
+    todfa Y X   tonfa Y X   star Y X   union Y X1 X2 …   concat Y X1 X2 …   min Y X   elim Y X   reidx Y X
+    clone Y X   rename Y X <s:t,s:t,…|->   combine Y X1 X2 …   iso X Y   equal X Y   dump X   states X   symbols X
+    acc X       (one bit per word of length ≤ k over the header's alphabet, shortest first)
+    accw X <a1,a2,…|->
+
+Every constructing op prints the dump of its result (`n|d start [finals] [s/a/t,t …]`).
+-/
+namespace AlgoVerif.C13.Driver
+open AlgoVerif AlgoVerif.C13
+
+inductive Reg where
+  | nfa (n : NFA)
+  | dfa (d : DFA)
+
+def parseList (s : String) : Option (List Int) :=
+  if s = "-" then some [] else (s.splitOn ",").mapM parseInt?
+
+def showInts (l : List Int) : String := "[" ++ " ".intercalate (l.map toString) ++ "]"
+
+def commaInts (l : List Int) : String := ",".intercalate (l.map toString)
+
+def dumpNFA (n : NFA) : String :=
+  let ts := n.trans.flatMap (fun st => st.2.map (fun e => s!"{st.1}/{e.1}/{commaInts e.2}"))
+  s!"n {n.start} {showInts n.final} [" ++ " ".intercalate ts ++ "]"
+
+def dumpDFA (d : DFA) : String :=
+  let ts := d.trans.flatMap (fun st => st.2.map (fun e => s!"{st.1}/{e.1}/{e.2}"))
+  s!"d {d.start} {showInts d.final} [" ++ " ".intercalate ts ++ "]"
+
+def dumpReg : Reg → String
+  | .nfa n => dumpNFA n
+  | .dfa d => dumpDFA d
+
+/-- all words over `sigma` of length exactly `k`, lexicographic in `sigma` order -/
+def wordsOfLen (sigma : List Int) : Nat → List (List Int)
+  | 0 => [[]]
+  | k + 1 => sigma.flatMap (fun a => (wordsOfLen sigma k).map (fun w => a :: w))
+
+def wordsUpTo (sigma : List Int) (k : Nat) : List (List Int) :=
+  (List.range (k + 1)).flatMap (wordsOfLen sigma)
+
+/-- `s:t,s:t,…` (or `-`) -/
+def parseRenaming (spec : String) : Option (List (Int × Int)) :=
+  if spec = "-" then some [] else
+  (spec.splitOn ",").mapM (fun p => match p.splitOn ":" with
+    | [a, b] => (match parseInt? a, parseInt? b with | some a, some b => some (a, b) | _, _ => none)
+    | _ => none)
+
+/-- later pairs win, as in the Go map the harness fills -/
+def applyRenaming (mp : List (Int × Int)) (s : Int) : Int :=
+  match mp.reverse.find? (fun p => p.1 == s) with
+  | some p => p.2
+  | none => s
+
+abbrev Regs := List (String × Reg)
+
+def getReg (rs : Regs) (x : String) : Option Reg := (rs.find? (fun p => p.1 == x)).map (·.2)
+def setReg (rs : Regs) (x : String) (r : Reg) : Regs := (x, r) :: rs.filter (fun p => p.1 != x)
+
+def getNFAs (rs : Regs) (xs : List String) : Option (List NFA) :=
+  xs.mapM (fun x => match getReg rs x with | some (.nfa n) => some n | _ => none)
+
+def getDFAs (rs : Regs) (xs : List String) : Option (List DFA) :=
+  xs.mapM (fun x => match getReg rs x with | some (.dfa d) => some d | _ => none)
+
+/-- result of one op: new registers and the output line; `none` line = panic/hang marker handled by caller -/
+inductive Step where
+  | out (rs : Regs) (line : String)
+  | dead (line : String)
+
+def lift {α : Type} (o : Outcome α) (k : α → Step) : Step :=
+  match o with
+  | .ok a => k a
+  | .panic => .dead "panic"
+  | .diverge => .dead "hang"
+
+def bits (bs : List Bool) : String := String.ofList (bs.map (fun b => if b then '1' else '0'))
+
+def accAll (r : Reg) (ws : List (List Int)) : Outcome (List Bool) :=
+  match r with
+  | .dfa d => .ok (ws.map d.accept)
+  | .nfa n => ws.foldl (fun (acc : Outcome (List Bool)) w =>
+      match acc with
+      | .ok l => (match n.accept w with | .ok b => .ok (l ++ [b]) | .panic => .panic | .diverge => .diverge)
+      | o => o) (.ok [])
+
+def step (sigma : List Int) (k : Nat) (rs : Regs) (line : String) : Step :=
+  let bad := Step.out rs "bad-op"
+  match words line with
+  | ["nfa", x, s, f] =>
+    match parseInt? s, parseList f with
+    | some s, some f => .out (setReg rs x (.nfa (NFA.new s f))) "ok"
+    | _, _ => bad
+  | ["dfa", x, s, f] =>
+    match parseInt? s, parseList f with
+    | some s, some f => .out (setReg rs x (.dfa (DFA.new s f))) "ok"
+    | _, _ => bad
+  | ["add", x, s, a, t] =>
+    match getReg rs x, parseInt? s, parseInt? a, parseList t with
+    | some (.nfa n), some s, some a, some t => .out (setReg rs x (.nfa (n.add s a t))) "ok"
+    | _, _, _, _ => bad
+  | ["dadd", x, s, a, t] =>
+    match getReg rs x, parseInt? s, parseInt? a, parseInt? t with
+    | some (.dfa d), some s, some a, some t => .out (setReg rs x (.dfa (d.add s a t))) "ok"
+    | _, _, _, _ => bad
+  | ["dump", x] =>
+    match getReg rs x with
+    | some r => .out rs ("ok " ++ dumpReg r)
+    | none => bad
+  | ["states", x] =>
+    match getReg rs x with
+    | some (.nfa n) => .out rs ("ok " ++ showInts n.states)
+    | some (.dfa d) => .out rs ("ok " ++ showInts d.states)
+    | none => bad
+  | ["symbols", x] =>
+    match getReg rs x with
+    | some (.nfa n) => .out rs ("ok " ++ showInts n.symbols)
+    | some (.dfa d) => .out rs ("ok " ++ showInts d.symbols)
+    | none => bad
+  | ["acc", x] =>
+    match getReg rs x with
+    | some r => lift (accAll r (wordsUpTo sigma k)) (fun bs => .out rs ("ok " ++ bits bs))
+    | none => bad
+  | ["accw", x, w] =>
+    match getReg rs x, parseList w with
+    | some r, some w => lift (accAll r [w]) (fun bs => .out rs ("ok " ++ showBool (bs.headD false)))
+    | _, _ => bad
+  | ["todfa", y, x] =>
+    match getReg rs x with
+    | some (.nfa n) => lift n.toDFA (fun d => .out (setReg rs y (.dfa d)) ("ok " ++ dumpDFA d))
+    | _ => bad
+  | ["tonfa", y, x] =>
+    match getReg rs x with
+    | some (.dfa d) => .out (setReg rs y (.nfa d.toNFA)) ("ok " ++ dumpNFA d.toNFA)
+    | _ => bad
+  | ["star", y, x] =>
+    match getReg rs x with
+    | some (.nfa n) => .out (setReg rs y (.nfa n.star)) ("ok " ++ dumpNFA n.star)
+    | _ => bad
+  | "union" :: y :: xs =>
+    match getNFAs rs xs with
+    | some (n :: ns) => .out (setReg rs y (.nfa (NFA.union (n :: ns)))) ("ok " ++ dumpNFA (NFA.union (n :: ns)))
+    | _ => bad
+  | "concat" :: y :: xs =>
+    match getNFAs rs xs with
+    | some (n :: ns) => .out (setReg rs y (.nfa (NFA.concat (n :: ns)))) ("ok " ++ dumpNFA (NFA.concat (n :: ns)))
+    | _ => bad
+  | ["min", y, x] =>
+    match getReg rs x with
+    | some (.dfa d) => lift d.minimize (fun m => .out (setReg rs y (.dfa m)) ("ok " ++ dumpDFA m))
+    | _ => bad
+  | ["elim", y, x] =>
+    match getReg rs x with
+    | some (.dfa d) => lift d.elimDead (fun m => .out (setReg rs y (.dfa m)) ("ok " ++ dumpDFA m))
+    | _ => bad
+  | ["reidx", y, x] =>
+    match getReg rs x with
+    | some (.dfa d) => lift d.reindex (fun m => .out (setReg rs y (.dfa m)) ("ok " ++ dumpDFA m))
+    | _ => bad
+  | ["clone", y, x] =>
+    match getReg rs x with
+    | some (.dfa d) => .out (setReg rs y (.dfa d.clone)) ("ok " ++ dumpDFA d.clone)
+    | some (.nfa n) => .out (setReg rs y (.nfa n.clone)) ("ok " ++ dumpNFA n.clone)
+    | _ => bad
+  | ["rename", y, x, spec] =>
+    match getReg rs x, parseRenaming spec with
+    | some (.nfa n), some mp => .out (setReg rs y (.nfa (n.permuted (applyRenaming mp)))) ("ok " ++ dumpNFA (n.permuted (applyRenaming mp)))
+    | some (.dfa d), some mp => .out (setReg rs y (.dfa (d.permuted (applyRenaming mp)))) ("ok " ++ dumpDFA (d.permuted (applyRenaming mp)))
+    | _, _ => bad
+  | "combine" :: y :: xs =>
+    match getDFAs rs xs with
+    | some ds => lift (combineDFA ds) (fun r =>
+        .out (setReg rs y (.dfa r.1)) ("ok " ++ dumpDFA r.1 ++ " | " ++ " ".intercalate (r.2.map showInts)))
+    | none => bad
+  | ["iso", x, y] =>
+    match getReg rs x, getReg rs y with
+    | some (.nfa a), some (.nfa b) => lift (a.isomorphic b) (fun r => .out rs ("ok " ++ showBool r))
+    | some (.dfa a), some (.dfa b) => lift (a.isomorphic b) (fun r => .out rs ("ok " ++ showBool r))
+    | _, _ => bad
+  | ["equal", x, y] =>
+    match getReg rs x, getReg rs y with
+    | some (.nfa a), some (.nfa b) => .out rs ("ok " ++ showBool (a.equal b))
+    | some (.dfa a), some (.dfa b) => .out rs ("ok " ++ showBool (a.equal b))
+    | _, _ => bad
+  | _ => bad
+
+def runOps (sigma : List Int) (k : Nat) : Regs → List String → List String
+  | _, [] => []
+  | rs, l :: rest =>
+    match step sigma k rs l with
+    | .out rs' o => o :: runOps sigma k rs' rest
+    | .dead o => o :: rest.map (fun _ => "skip")
+
+def runCase (hdr : List String) (ops : List String) : List String :=
+  let sigma := match headerGet hdr "sig" with
+    | some s => (parseList s).getD [97, 98]
+    | none => [97, 98]
+  runOps sigma (headerNat hdr "k" 5) [] ops
 
 end AlgoVerif.C13.Driver
